@@ -5,6 +5,8 @@
   D3 R-ORDER the acquisition chain tries every method before giving up
   D4 R-ORDER the init probe forces backup+emulate when no executable mapping exists
   D5 R-ONCE  executor dispatch calls exactly one implementation exactly once
+D6 R-NULL  every value stored into program->code_exec by the compile driver is a definite function pointer
+           (backup function only where it is known non-NULL, else orc_executor_emulate)
 """
 from facts import AnalysisBroken, access_path, strip_casts, unparse
 from flow import Facts, describe_path, atom
@@ -252,3 +254,8 @@ def run(ctx):
         rep.check(ok, "D5-DISPATCH-ONCE", where(f), "code-only-executor",
                   "with ex->program == NULL the code object comes from arrays[ORC_VAR_A2]",
                   "%s no longer takes the code object from arrays[ORC_VAR_A2] on the program-less path" % fn)
+
+    # ---- D6: the fallback installed by the compile driver is a real function ---------------------
+    from rules_common import check_code_exec_nonnull
+    check_code_exec_nonnull(db, rep, "D6-FALLBACK-NONNULL")
+
